@@ -170,7 +170,8 @@ func (v *SliceSchema) process(ctx *p.SchemaCtx) {
 
 	if isZeroVal {
 		if v.defaultVal != nil {
-			refVal = reflect.ValueOf(v.defaultVal)
+			// the items are read from a copy: an item schema may hand what it is given to the destination as it is (custom schemas do)
+			refVal = cloneSliceValue(reflect.ValueOf(v.defaultVal))
 		} else if v.required == nil {
 			return
 		} else {
@@ -386,14 +387,65 @@ func sliceLength(n int) (Test, BoolTFunc) {
 	return t, fn
 }
 
-// returns a copy of a slice value that shares no slice memory with the original (nested slices are copied too)
+// returns a copy of a value that shares no memory with the original: slices, arrays, maps, pointers, interfaces and the
+// exported fields of structs are copied recursively (a default may hold structs, pointers or maps, not only nested slices)
 func cloneSliceValue(v reflect.Value) reflect.Value {
-	if v.Kind() != reflect.Slice || v.IsNil() {
+	return cloneValue(v, 0)
+}
+
+func cloneValue(v reflect.Value, depth int) reflect.Value {
+	if depth > 64 {
+		// deeper than any sensible default (or cyclic): left as it is
 		return v
 	}
-	cp := reflect.MakeSlice(v.Type(), v.Len(), v.Len())
-	for idx := 0; idx < v.Len(); idx++ {
-		cp.Index(idx).Set(cloneSliceValue(v.Index(idx)))
+	switch v.Kind() {
+	case reflect.Slice:
+		if v.IsNil() {
+			return v
+		}
+		cp := reflect.MakeSlice(v.Type(), v.Len(), v.Len())
+		for idx := 0; idx < v.Len(); idx++ {
+			cp.Index(idx).Set(cloneValue(v.Index(idx), depth+1))
+		}
+		return cp
+	case reflect.Array:
+		cp := reflect.New(v.Type()).Elem()
+		for idx := 0; idx < v.Len(); idx++ {
+			cp.Index(idx).Set(cloneValue(v.Index(idx), depth+1))
+		}
+		return cp
+	case reflect.Ptr:
+		if v.IsNil() {
+			return v
+		}
+		cp := reflect.New(v.Type().Elem())
+		cp.Elem().Set(cloneValue(v.Elem(), depth+1))
+		return cp
+	case reflect.Interface:
+		if v.IsNil() {
+			return v
+		}
+		cp := reflect.New(v.Type()).Elem()
+		cp.Set(cloneValue(v.Elem(), depth+1))
+		return cp
+	case reflect.Map:
+		if v.IsNil() {
+			return v
+		}
+		cp := reflect.MakeMapWithSize(v.Type(), v.Len())
+		for iter := v.MapRange(); iter.Next(); {
+			cp.SetMapIndex(iter.Key(), cloneValue(iter.Value(), depth+1))
+		}
+		return cp
+	case reflect.Struct:
+		cp := reflect.New(v.Type()).Elem()
+		cp.Set(v)
+		for idx := 0; idx < v.NumField(); idx++ {
+			if f := cp.Field(idx); f.CanSet() {
+				f.Set(cloneValue(v.Field(idx), depth+1))
+			}
+		}
+		return cp
 	}
-	return cp
+	return v
 }
